@@ -1,6 +1,7 @@
 # C03 - rebalancing after joins and leaves neither loses, duplicates nor resurrects keys (DESIGN.md section 9).
 import json
 
+import balancelib
 import dmaplib
 import memberlib
 import vlib
@@ -63,13 +64,159 @@ def gen(rng, sid, N0, R, njoins, leave):
     ops.append({"op": "scan", "c": "cc", "d": d})
     ops.append({"op": "scan", "c": "emb%d" % live[0], "d": d})
     cluster = {"members": N0, "replicas": R, "partitions": rng.choice([7, 13]), "table": rng.choice([256, 512]), "evict_workers": 1}
-    return {"id": sid, "cluster": cluster, "ops": ops, "_R": R, "_nlive": len(live), "_joins": njoins, "_leave": leave}
+    model = (sid % 2 == 0) and not leave
+    if model:
+        # model correspondence: a white-box dump after every operation; no timer-driven balancer / routing push, so that
+        # every step between two dumps is one operation of the scenario
+        cluster["balancer_ms"] = 3600000
+        cluster["push_ms"] = 3600000
+        ops2 = [{"op": "hstate", "d": d}]
+        for o in ops:
+            ops2.append(o)
+            if o["op"] not in ("dump", "fragkeys", "scan"):
+                ops2.append({"op": "hstate", "d": d})
+        ops = ops2
+    return {"id": sid, "cluster": cluster, "ops": ops, "_R": R, "_nlive": len(live), "_joins": njoins, "_leave": leave,
+            "_model": model, "_N0": N0}
+
+
+CRASH_POINTS = [("move.exported", "self"),      # the sender is lost before anything was sent
+                ("move.sent", "self"),          # the sender is lost after the owner merged the table, before its Drop
+                ("move.sent", "receiver"),      # the new owner is lost after it merged and acknowledged (the sender drops)
+                ("merge.begin", "self"),        # the new owner is lost before the import
+                ("merge.entry", "self")]        # the new owner is lost in the middle of the import
+
+
+def gen_crash(rng, sid, point, victim):
+    """3 members, R=2: load, arm a fail point, join a 4th member and run the balancer of the old members one by one: the
+    victim stops abruptly at the armed step of some fragment move; then stabilise and read everything back"""
+    d = "c03x%d" % sid
+    nkeys = rng.randrange(30, 60)
+    keys = [dmaplib.hx("%s-k%02d" % (d, i)) for i in range(nkeys)]
+    ver = {k: 0 for k in keys}
+    paths = ["emb@owner", "emb@other", "emb@backup", "cc"]
+    ops = []
+
+    def burst(n, cs=paths):
+        out = []
+        for _ in range(n):
+            k = rng.choice(keys)
+            c = rng.choice(cs)
+            w = rng.random()
+            if w < 0.45:
+                ver[k] += 1
+                out.append({"op": "put", "c": c, "d": d, "k": k, "v": dmaplib.hx("%s#%d" % (k[-6:], ver[k]) + "." * rng.choice([0, 30, 60]))})
+            elif w < 0.65:
+                out.append({"op": "del", "c": c, "d": d, "k": k})
+            else:
+                out.append({"op": "get", "c": c, "d": d, "k": k})
+        return out
+
+    for k in keys:
+        ver[k] += 1
+        ops.append({"op": "put", "c": rng.choice(paths), "d": d, "k": k, "v": dmaplib.hx("%s#%d" % (k[-6:], ver[k]) + "." * 40)})
+    ops += burst(rng.randrange(20, 50))
+    ops.append({"op": "arm", "c": point, "tok": victim, "m": rng.choice([1, 1, 2, 3]) if point != "merge.entry" else rng.choice([1, 2, 4, 7])})
+    ops.append({"op": "join"})
+    ops.append({"op": "push"})
+    order = [0, 1, 2]
+    rng.shuffle(order)
+    for m in order:
+        ops.append({"op": "balance", "m": m})
+        ops += burst(rng.randrange(2, 6), cs=["cc"])
+    ops.append({"op": "fired"})
+    ops.append({"op": "waitstable", "ms": 30000})
+    ops += burst(rng.randrange(10, 25))
+    ops.append({"op": "waitstable", "ms": 30000})
+    for k in keys:
+        for c in paths:
+            ops.append({"op": "get", "c": c, "d": d, "k": k})
+        ops.append({"op": "dump", "d": d, "k": k})
+    ops.append({"op": "scan", "c": "cc", "d": d})
+    ops2 = [{"op": "hstate", "d": d}]
+    for o in ops:
+        ops2.append(o)
+        if o["op"] not in ("dump", "fragkeys", "scan", "get", "arm", "fired"):
+            ops2.append({"op": "hstate", "d": d})
+    cluster = {"members": 3, "replicas": 2, "partitions": 7, "table": rng.choice([256, 512]), "evict_workers": 1,
+               "balancer_ms": 3600000, "push_ms": 3600000}
+    return {"id": sid, "cluster": cluster, "ops": ops2, "_R": 2, "_nlive": 3, "_joins": 1, "_leave": True, "_crash": (point, victim),
+            "_model": False, "_N0": 3}
+
+
+def colocated_keys(sc, obs):
+    """D40: keys whose every copy sat on the lost member when it was lost, although ReplicaCount copies existed: the
+    primary copy had (just) been moved onto the member that still held the partition's backup copy.  Returns the
+    key set and the victim.  A key counts only if no survivor holds a copy afterwards and every copy a survivor held
+    in the last dump before the loss was a primary-kind copy of a previous owner whose partition owner was the
+    victim, or a backup-kind copy of an old backup owner whose current backup owner was the victim (i.e. it was
+    legitimately handed over to the victim); any other lost copy on a survivor is never explained."""
+    victim = None
+    for op, ob in zip(sc["ops"], obs):
+        if op["op"] == "fired" and ob.get("fired"):
+            victim = ob["fired"].get("victim")
+    if victim is None or victim < 0:
+        return set(), victim
+    pre = post = None
+    for op, ob in zip(sc["ops"], obs):
+        if op["op"] != "hstate" or ob.get("r") != "ok":
+            continue
+        if any(c[0] == victim for c in ob["copies"]):
+            pre, post = ob, None
+        elif pre is not None and post is None:
+            post = ob
+    if pre is None or post is None:
+        return set(), victim
+    owner_of, backup_of = {}, {}
+    for p in pre["parts"]:
+        ow = p["owners"] or []
+        bw = p["backups"] or []
+        owner_of[p["p"]] = ow[-1] if ow else None
+        backup_of[p["p"]] = bw[-1] if bw else None
+    after = {c[3] for c in post["copies"]}
+    out = set()
+    for key in {c[3] for c in pre["copies"]}:
+        if key in after:
+            continue
+        cs = [c for c in pre["copies"] if c[3] == key]
+        on_victim = [c for c in cs if c[0] == victim]
+        others = [c for c in cs if c[0] != victim]
+        # a survivor's copy that legitimately went to the victim: the primary fragment of a previous owner whose partition
+        # owner was the victim, or the backup fragment of an old backup owner whose current backup owner was the victim
+        if on_victim and all((c[1] == "p" and owner_of.get(c[2]) == victim) or (c[1] == "b" and backup_of.get(c[2]) == victim)
+                             for c in others):
+            out.add(key)
+    return out, victim
+
+
+def gen_d40(rng, sid):
+    """the D40 witness, directed: the harness looks for a partition whose new primary owner still holds the backup
+    copy, lets the previous owner hand the primary fragment over and stops the new owner before it has moved its
+    backup fragment on (op "colocate")"""
+    d = "c03y%d" % sid
+    keys = [dmaplib.hx("%s-k%02d" % (d, i)) for i in range(60)]
+    paths = ["emb@owner", "emb@other", "emb@backup", "cc"]
+    ops = [{"op": "put", "c": rng.choice(paths), "d": d, "k": k, "v": dmaplib.hx("%s#1" % k[-6:] + "." * 20)} for k in keys]
+    ops += [{"op": "arm", "c": "none", "tok": "self", "m": 1}, {"op": "join"}, {"op": "push"}, {"op": "colocate", "d": d}, {"op": "fired"},
+            {"op": "waitstable", "ms": 30000}]
+    for k in keys:
+        ops.append({"op": "get", "c": rng.choice(paths), "d": d, "k": k})
+    ops2 = [{"op": "hstate", "d": d}]
+    for o in ops:
+        ops2.append(o)
+        if o["op"] not in ("get", "arm", "fired"):
+            ops2.append({"op": "hstate", "d": d})
+    cluster = {"members": 3, "replicas": 2, "partitions": 13, "table": 512, "evict_workers": 1, "balancer_ms": 3600000, "push_ms": 3600000}
+    return {"id": sid, "cluster": cluster, "ops": ops2, "_R": 2, "_nlive": 3, "_joins": 1, "_leave": True, "_crash": ("colocate", "owner"),
+            "_model": False, "_N0": 3}
 
 
 def judge(sc, obs):
     if len(obs) < len(sc["ops"]):
         return ("env", "scenario aborted")
     ref = {}
+    d40 = sc.get("_d40") or set()
+    ambiguous = set()          # keys whose last Put/Delete failed while a member was being lost: outcome unknown
     unstable_after_stop = False
     for i, (op, ob) in enumerate(zip(sc["ops"], obs)):
         o, r = op["op"], ob.get("r")
@@ -79,20 +226,28 @@ def judge(sc, obs):
             if r != "ok":
                 return ("env", "cluster did not stabilise: %s" % r)
             unstable_after_stop = False
-        if o == "stop":
+        if o in ("stop", "arm"):
             unstable_after_stop = True
         if o == "put":
             if r != "ok":
                 if unstable_after_stop:
                     ref.pop(op["k"], None)
+                    ambiguous.add(op["k"])
                     continue
                 return (i, "Put through %s during the hand-over returned %s" % (op["c"], r))
             ref[op["k"]] = op["v"]
+            ambiguous.discard(op["k"])
         elif o == "del":
             if r != "ok":
+                if unstable_after_stop:
+                    ambiguous.add(op["k"])
+                    continue
                 return (i, "Delete through %s during the hand-over returned %s" % (op["c"], r))
             ref.pop(op["k"], None)
+            ambiguous.discard(op["k"])
         elif o == "get":
+            if unstable_after_stop or op["k"] in ambiguous or op["k"] in d40:
+                continue
             exp = ref.get(op["k"])
             if exp is None and r != "notfound":
                 return (i, "key %s is deleted (or was never written); Get through %s returns %s %s" % (op["k"], op["c"], r, (ob.get("val") or "")[:24]))
@@ -100,6 +255,8 @@ def judge(sc, obs):
                 got = bytes.fromhex(ob["val"]).decode(errors="replace").rstrip(".") if ob.get("val") else None
                 return (i, "Get through %s returns %s %s, the last acknowledged value is %s" % (op["c"], r, got, bytes.fromhex(exp).decode().rstrip(".")))
         elif o == "dump":
+            if op["k"] in ambiguous or op["k"] in d40:
+                continue
             copies = ob.get("copies", [])
             prim = [c for c in copies if c["kind"] == "p"]
             baks = [c for c in copies if c["kind"] == "b"]
@@ -112,6 +269,10 @@ def judge(sc, obs):
                 # serve the reads (C02) and a primary copy reappears with the next write
                 if len(prim) != 1 and not (sc["_leave"] and len(prim) == 0 and baks):
                     return (i, "live key %s is stored %d times as a primary copy (%s)" % (op["k"], len(prim), [c["m"] for c in prim]))
+                if sc.get("_crash"):
+                    # after the loss of the owner the previous owner's (older) copy is the primary copy again and the
+                    # newest one lives on the backup owner: reads resolve it (checked by the Gets and by the model)
+                    continue
                 if prim and prim[0]["val"] != exp:
                     return (i, "the primary copy of %s holds an old value" % op["k"])
                 want = min(sc["_R"], sc["_nlive"]) - 1
@@ -122,6 +283,8 @@ def judge(sc, obs):
                         return (i, "a backup copy of %s holds an old value" % op["k"])
         elif o == "scan":
             exp = sorted(ref)
+            if ambiguous or d40:
+                continue
             if sorted(ob.get("keys") or []) != exp:
                 got = ob.get("keys") or []
                 return (i, "scan through %s yields %d keys (%d distinct), %d are live; missing %s, extra %s" % (
@@ -143,13 +306,29 @@ def run(res):
         R = rng.choice([1, 2, 2])
         N0 = rng.choice([1, 2]) if R == 1 else rng.choice([2, 3])
         scs.append(gen(rng, i, N0, R, rng.choice([1, 2, 3]) if res.tier == "quick" else rng.choice([1, 2, 3, 4]), rng.random() < 0.3))
+    ncrash = 10 if res.tier == "quick" else 80
+    for j in range(ncrash):
+        point, victim = CRASH_POINTS[j % len(CRASH_POINTS)]
+        scs.append(gen_crash(vlib.rng_for(res.seed, PID, "crash", j), 10000 + j, point, victim))
+    for j in range(2 if res.tier == "quick" else 8):
+        scs.append(gen_d40(vlib.rng_for(res.seed, PID, "d40", j), 20000 + j))
     results = memberlib.run_membership(scs, jobs=6)
     failures, envfail = [], 0
+    d40_scenarios, d40_keys = 0, 0
+    kf40 = vlib.match_known(PID, {"kind": "copies-colocated-on-lost-member"})
     for sc in scs:
         r = results[sc["id"]]
         if r.get("env", {}).get("error"):
             envfail += 1
             continue
+        if sc.get("_crash") and kf40 and len(r["obs"]) >= len(sc["ops"]):
+            ks, victim = colocated_keys(sc, r["obs"])
+            # only keys that had been written (acknowledged) count; the set is excluded from the judgement below and
+            # from the model comparison, and reported as the known finding
+            if ks:
+                sc["_d40"] = ks
+                d40_scenarios += 1
+                d40_keys += len(ks)
         v = judge(sc, r["obs"])
         if v and v[0] == "env":
             envfail += 1
@@ -164,6 +343,45 @@ def run(res):
         res.violation({"kind": "impl-violates-property", "cluster": sc["cluster"], "scenario": {"ops": sc["ops"]}, "ops_on_failing_key": mini[-30:],
                        "failed_step": v[0], "predicate": {"name": "reads follow data / no loss / no resurrection / exactly-once placement", "verdict": v[1]},
                        "_R": sc["_R"], "_nlive": sc["_nlive"], "_leave": sc["_leave"], "seed": res.seed})
+    # model correspondence (Model/Balance.v, BalanceCrash.v evaluated by Coq on the abstracted dumps)
+    tcases, scases = [], []
+    mstats = {}
+    ccases = []
+    fired = {}
+    for sc in scs:
+        r = results[sc["id"]]
+        if not (sc.get("_model") or sc.get("_crash")) or r.get("env", {}).get("error") or len(r["obs"]) < len(sc["ops"]):
+            continue
+        if sc.get("_crash"):
+            f = [ob.get("fired") for op, ob in zip(sc["ops"], r["obs"]) if op["op"] == "fired"]
+            key = "%s/%s" % sc["_crash"]
+            fired.setdefault(key, [0, 0])
+            fired[key][0] += 1
+            fired[key][1] += 1 if (f and f[0]) else 0
+        t, s_, st = balancelib.build_cases(sc, r["obs"], with_backup=(sc["_R"] == 2 and sc["_N0"] >= 2), crash=bool(sc.get("_crash")),
+                                           exclude=sc.get("_d40") or set())
+        tcases += t
+        scases += s_
+        ccases += st.pop("crash_states")
+        for k, v in st.items():
+            mstats[k] = mstats.get(k, 0) + v
+    badc = balancelib.coq_mismatches("c03c", "scase", "sc_mismatches", ccases)
+    badt = balancelib.coq_mismatches("c03t", "tcase", "t_mismatches", tcases)
+    bads = balancelib.coq_mismatches("c03s", "scase", "s_mismatches", scases)
+    byid = {sc["id"]: sc for sc in scs}
+    for kind, bad in (("transition", badt), ("state", bads), ("state-after-member-loss", badc)):
+        for (sid, step, part) in bad[:3]:
+            sc = byid[sid]
+            res.violation({"kind": "model-vs-impl", "what": kind, "cluster": sc["cluster"], "scenario": {"ops": sc["ops"]}, "failed_step": step,
+                           "partition": part, "op": sc["ops"][step],
+                           "theorem_or_correspondence": "Model/BalanceRun.v %s on the abstracted white-box dump" % {"transition": "explains", "state": "state_ok"}.get(kind, "state_ok_crash"),
+                           "_R": sc["_R"], "_nlive": sc["_nlive"], "_leave": sc["_leave"], "seed": res.seed}, no_input=True)
+    res.coverage["model"] = dict(mstats, transition_cases=len(tcases), state_cases=len(scases), crash_state_cases=len(ccases),
+                                 transition_mismatches=len(badt), state_mismatches=len(bads), crash_state_mismatches=len(badc))
+    if d40_scenarios:
+        res.known_finding(kf40["description"] + " [this run: %d keys in %d scenarios]" % (d40_keys, d40_scenarios))
+    res.coverage["d40_scenarios"] = d40_scenarios
+    res.coverage["fail_points"] = {k: {"scenarios": v[0], "fired": v[1]} for k, v in fired.items()}
     if not proofs_ok and not res.violations:
         broken = [o for o in res.obligations if not o["ok"]]
         res.violation({"kind": "obligation-broken", "failed": [o["theorem"] for o in broken],
